@@ -2,7 +2,7 @@ CONFIG = dict(
     id="C16",
     engine="pure",
     technique="Lean 4 theorems (refinement of the concrete sync.Map/slice state to folds over the history, by induction over all histories) "
-              "over a hand-written model of channel.Service / Channel (by name and through retained *Channel handles, bound or stale) / FrontGroup / ClientSessions.PushMsg / pushLocal + differential "
+              "over a hand-written model of channel.Service (channels by name, direct pushes PushMessageByIds / PushMessageById) / Channel (by name and through retained *Channel handles, bound or stale) / FrontGroup / ClientSessions.PushMsg / impls.PushMessageByIds / PushMessageById / pushLocal + differential "
               "correspondence with the real code through a recording IPushMessager and recording fake client sessions",
     level_text="Machine-checked proof in Lean 4 that, for every history of create/fetch/delete/join/leave/broadcast operations over any "
                "channels, fronts and ids (duplicates, removals at any position) interleaved with session adds/removes, a broadcast hands the push "
@@ -23,13 +23,22 @@ CONFIG = dict(
                "are statements about the fold that broadcast_lists_current_members ties to the model, and broadcast_tuple_count_and_order restates them "
                "on the tuples the model's Channel.PushMessage emits. The pushLocal branch for an issuing service WITHOUT a \"sessions\" component "
                "(a back-end service) is modelled: nothing is delivered in place, the tuples are unchanged and every front the directory knows - the "
-               "issuer's own name included - is sent exactly one sys.pushmsg (issuer_without_sessions_requests_every_known_front). All three slice cases of FrontGroup.Remove are modelled "
+               "issuer's own name included - is sent exactly one sys.pushmsg (issuer_without_sessions_requests_every_known_front). Direct pushes "
+               "(channel.Service.PushMessageByIds / PushMessageById -> impls.PushMessageByIds / PushMessageById, no channel involved) are inside the model: "
+               "proved for every state, front name, id list and directory that the push layer is handed exactly the caller's one tuple, that it is delivered "
+               "in place (pushMsg on the open live connections) iff it addresses the issuing service and that has the component, that otherwise exactly one "
+               "sys.pushmsg with the list goes to the front iff the directory knows it (an unknown front gets nothing), never both, and that the single-id "
+               "form is the one-element list (direct_push_reaches_exactly_the_listed_connections), and that under the issuer's own name every registered open "
+               "connection receives it exactly as often as it is listed, closed and unregistered ones never, in list order (direct_push_in_place_counts). The dropped Marshal error "
+               "(`pmsg.Data, _ = Serializer.Marshal(msg)`) is inside the model as a serializer returning the empty payload: proved for any two serializers "
+               "that the connections reached, their order, multiplicity and routes are the same in place and at a front-end handling the onward requests "
+               "(recipients_do_not_depend_on_the_serializer). All three slice cases of FrontGroup.Remove are modelled "
                "literally and proved equal to erase-first. The model is tied to the Go code on every run by executing both on generated histories "
                "(3 channels + temp channels x 3 fronts x ids with duplicates, targeted first/middle/last removals, retained handles used after their name "
-               "was deleted or re-bound, malformed lines) and the "
+               "was deleted or re-bound, direct pushes through the real single-id and multi-id paths, messages the JSON serializer rejects, malformed lines) and the "
                "property predicate (an independent flat bookkeeping in the driver) is evaluated on the implementation's own observations.",
     level_note="Trusted: Lean kernel, harness/driver line protocol and canonicalisation (tuples sorted by front; tuples with an empty id list are not compared, only counted for the once-per-front flag), sync.Map as a linearizable map used "
-               "from one goroutine, the JSON client serializer on [A-Za-z0-9._-] strings. The theorems are about the model; the differential run "
+               "from one goroutine, the JSON client serializer on [A-Za-z0-9._-] strings and on +Inf (rejected: empty payload). The theorems are about the model; the differential run "
                "ties it to the code on sampled histories plus a bounded-exhaustive enumeration (thorough tier). Not covered: the actor transport "
                "between a back-end's PushMessageByIds and a remote front-end's sys.pushmsg (property C03), concurrent use of one channel service "
                "from several goroutines, a client whose send queue is full (Session.Push blocks the loop: no liveness claim), a push implementation "
@@ -48,7 +57,9 @@ CONFIG = dict(
                        "stale_handle_ops_do_not_touch_the_map", "stale_object_changes_only_through_its_handle", "free_is_delete_of_the_name",
                        "broadcast_tuple_count_and_order", "issuer_without_sessions_requests_every_known_front", "session_ids_fresh_before_wrap",
                        "object_members_are_the_fold_of_resolved_operations", "handle_broadcast_lists_object_members",
-                       "object_changes_only_by_operations_resolved_to_it"],
+                       "object_changes_only_by_operations_resolved_to_it",
+                       "direct_push_reaches_exactly_the_listed_connections", "direct_push_in_place_counts",
+                       "recipients_do_not_depend_on_the_serializer"],
     harness_pkg="./c16",
     mode="diff",
     reset_prefix="reset",
@@ -56,17 +67,17 @@ CONFIG = dict(
         "quick": [dict(name="main", env={"VERIF_N": "1200"}, timeout=240),
                   dict(name="exh4", test="TestExhaustive", env={"VERIF_DEPTH": "4"}, timeout=240),
                   dict(name="exhh4", test="TestHandlesExhaustive", env={"VERIF_DEPTH": "4"}, timeout=240)],
-        "thorough": [dict(name="main", env={"VERIF_N": "20000", "VERIF_BIG": "80", "VERIF_SESS": "2000", "VERIF_RACE": "400", "VERIF_TWO": "600", "VERIF_CLOSED": "600", "VERIF_HANDLE": "2000", "VERIF_BACKEND": "600"}, timeout=1500),
+        "thorough": [dict(name="main", env={"VERIF_N": "20000", "VERIF_BIG": "80", "VERIF_SESS": "2000", "VERIF_RACE": "400", "VERIF_TWO": "600", "VERIF_CLOSED": "600", "VERIF_HANDLE": "2000", "VERIF_BACKEND": "600", "VERIF_DIRECT": "1500"}, timeout=1500),
                      dict(name="seed2", env={"VERIF_N": "10000", "VERIF_BIG": "80", "VERIF_SESS": "1000"}, seed_offset=1000, timeout=1500),
                      dict(name="exh6", test="TestExhaustive", env={"VERIF_DEPTH": "6"}, timeout=1500),
                      dict(name="exhh6", test="TestHandlesExhaustive", env={"VERIF_DEPTH": "6"}, timeout=1500)],
     },
-    trivial=r"^(ok|nil|bad-op|dl=|dl= cb=1|n=0 \| once=1 dl= sent= dlb=)?$",
+    trivial=r"^(ok|nil|bad-op|dl=|dl= cb=1|n=0 \| once=1 dl= sent= dlb=( cb=1)?)?$",
     rule="op lines generated from one PRNG (VERIF_SEED): cases of 10-80 operations after `reset local=<front>` over channels a,b,c and temp "
          "channels (AllocTempChannel/FreeTempChannel), fronts f1,f2,f3, ids 1..7 plus 0 and 2^32-1; joins (a quarter of them duplicates of a "
          "listed id), leaves (two thirds aimed at the first/middle/last/random element of a real group, the rest at random incl. absent ids, "
          "missing groups and channels), broadcasts, create/fetch/delete, session add/remove, direct ClientSessions.PushMsg and sys.pushmsg with "
-         "live/unknown/duplicate ids, ~2% malformed lines; every case ends with a broadcast on each channel; corpus first; large-group cases (9 quick / 80 thorough per run): one group of 130-600 ids from a counter (a third with a run of duplicates) emptied from the newest end, the oldest end or at random through range ops, with a broadcast after every chunk and single steps around sizes 32/64/128/212; concurrent-membership cases (40 / 400): while a broadcast is in flight — after the channel took a front's id list, before the push layer reads it — another goroutine issues a leave (mostly of a middle member) or join on that same front; every front must receive the snapshot; two-front-end cases (60 / 600): two front-end services in one process whose connections are numbered alike but differ in which are live, ClientSessions.PushMsg and sys.pushmsg (through the one shared sys entry object) addressed to each in turn in both orders, broadcasts of channels spanning the issuing front-end, the second one and a remote-only third, issued through the real impls.PushMessageByIds (requests sent onward are captured from ns.RequestEx and handed to the addressed service); three quarters of the ordinary cases also host a second front-end; closed-connection cases (60 / 600): a registered connection whose Push returns an error (socket closed, not yet removed; the recording fake session does that after `sclose`) listed at the first, a middle and the last position of multi-id ClientSessions.PushMsg / sys.pushmsg calls and among the members of a broadcast, on the issuing and on the second front-end; session-callback cases (60 / 2000): a recording ISessionsHandler whose OnSessionAdd pushes (ClientSessions.PushMsg) or joins+broadcasts (through the real push impl, in place) to lists naming the connection being added, and whose OnSessionRemove pushes to lists naming the one being removed; retained-handle cases (80 / 2000, generated last): the harness keeps every *Channel it was handed; names a, b and temp channels are deleted and re-created while c.Add / c.Leave (two thirds aimed at a listed id) / c.PushMessage / FreeTempChannel go through bound handles, stale handles and stale handles whose name denotes a newer object (and now and then a handle not handed out yet), interleaved with the by-name operations; each case ends with a broadcast through every handle and on every name; issuer-without-sessions cases (40 / 600, generated after those): `reset ... nosess=1` builds the issuing service without a \"sessions\" component (names f1, f2, f3 and chat-1, which the directory does not know), members are joined under the issuer's own name, other fronts and an unknown name, broadcasts by name and through handles go through the real impls.PushMessageByIds: no in-place delivery, one captured sys.pushmsg per known front with members incl. the issuer itself; plus every history "
+         "live/unknown/duplicate ids, ~2% malformed lines; every case ends with a broadcast on each channel; corpus first; large-group cases (9 quick / 80 thorough per run): one group of 130-600 ids from a counter (a third with a run of duplicates) emptied from the newest end, the oldest end or at random through range ops, with a broadcast after every chunk and single steps around sizes 32/64/128/212; concurrent-membership cases (40 / 400): while a broadcast is in flight — after the channel took a front's id list, before the push layer reads it — another goroutine issues a leave (mostly of a middle member) or join on that same front; every front must receive the snapshot; two-front-end cases (60 / 600): two front-end services in one process whose connections are numbered alike but differ in which are live, ClientSessions.PushMsg and sys.pushmsg (through the one shared sys entry object) addressed to each in turn in both orders, broadcasts of channels spanning the issuing front-end, the second one and a remote-only third, issued through the real impls.PushMessageByIds (requests sent onward are captured from ns.RequestEx and handed to the addressed service); three quarters of the ordinary cases also host a second front-end; closed-connection cases (60 / 600): a registered connection whose Push returns an error (socket closed, not yet removed; the recording fake session does that after `sclose`) listed at the first, a middle and the last position of multi-id ClientSessions.PushMsg / sys.pushmsg calls and among the members of a broadcast, on the issuing and on the second front-end; session-callback cases (60 / 2000): a recording ISessionsHandler whose OnSessionAdd pushes (ClientSessions.PushMsg) or joins+broadcasts (through the real push impl, in place) to lists naming the connection being added, and whose OnSessionRemove pushes to lists naming the one being removed; retained-handle cases (80 / 2000, generated last): the harness keeps every *Channel it was handed; names a, b and temp channels are deleted and re-created while c.Add / c.Leave (two thirds aimed at a listed id) / c.PushMessage / FreeTempChannel go through bound handles, stale handles and stale handles whose name denotes a newer object (and now and then a handle not handed out yet), interleaved with the by-name operations; each case ends with a broadcast through every handle and on every name; issuer-without-sessions cases (40 / 600, generated after those): `reset ... nosess=1` builds the issuing service without a \"sessions\" component (names f1, f2, f3 and chat-1, which the directory does not know), members are joined under the issuer's own name, other fronts and an unknown name, broadcasts by name and through handles go through the real impls.PushMessageByIds: no in-place delivery, one captured sys.pushmsg per known front with members incl. the issuer itself; direct-push cases (60 / 1500, generated last): `dpush front=F ids=.. ` = channel.Service.PushMessageByIds and `dpush1 front=F id=N` = channel.Service.PushMessageById (the recorder hands the latter to the real impls.PushMessageById, the former to impls.PushMessageByIds) addressed to the issuing service (half of the chat-1/f3 cases without a \"sessions\" component), the second front-end, a remote-only front and a name the directory does not know, with id lists of 0-5 ids naming live, unknown, duplicate and closed connections, interleaved with joins, broadcasts, sclose/sdel; a sixth of the messages is `~inf` (+Inf, which encoding/json rejects: the push must go out to the same connections with empty data); observation = tuples, in-place deliveries, captured sys.pushmsg requests, second front-end deliveries, completions of the callback; plus every history "
          "of length <= 4 (quick) / 6 (thorough) over a 7-operation alphabet followed by a broadcast, and every history of that length over a second 7-letter alphabet mixing join / delete / re-create by name with Add / Leave / FreeTempChannel through the handles of the first two objects, followed by a broadcast through both handles and by name. A case is non-trivial when its observation "
          "is a value (channel identity, tuples, deliveries); distinct = distinct (op, observation) pairs",
     trusted_base=[
@@ -78,7 +89,9 @@ CONFIG = dict(
         "the harness stands in for the actor transport: ns.RequestEx on an unstarted NodeService with a recording actor context (Send) and the "
         "directory {f1,f2,f3} set through Cluster.UpdateClusterTopology; a captured sys.pushmsg for the second front-end is deserialized and "
         "handed to the shared builtin.Entry.PushMsg with that service as the owning actor",
-        "client serializer = encoding/json on a string of [A-Za-z0-9._-] (quote, bytes, quote)",
+        "client serializer = encoding/json on a string of [A-Za-z0-9._-] (quote, bytes, quote); on +Inf it returns an error and no bytes (driver: `~inf` -> empty payload)",
+        "for a direct push the tuple line of the observation is written by the harness's recorder from the arguments it was called with (channel.Service -> IPushMessager); "
+        "what the real impls path did with it is observed through deliveries and captured requests",
         "harness canonicalisation (channel objects numbered in order of first appearance, panics mapped to 'panic'); a handle `h=N` is the N-th "
         "object so numbered — every creating call returns the object, so the numbering is the creation order the model counts",
     ],
